@@ -154,6 +154,10 @@ pub struct EndpointFacts {
   pub setup_errors: Vec<String>,
 }
 
+/// GUID prefix of the second remote participant of a matching configuration
+/// (see `GateRig::new_with_matches`).
+pub const PEER2_PREFIX: [u8; 12] = [0x01, 0x12, 8, 8, 8, 8, 8, 8, 8, 8, 8, 8];
+
 pub struct GateRig {
   pub(crate) mr: MessageReceiver,
   pub(crate) plugins: SecurityPluginsHandle,
@@ -173,6 +177,23 @@ impl GateRig {
   /// `dir`: fixture directory, `governance`: file name of the signed
   /// governance document inside it.
   pub fn new(dir: &str, governance: &str) -> Result<Self, String> {
+    Self::new_with_matches(dir, governance, &[])
+  }
+
+  /// As `new`, with a matching configuration: every pair `(d, w)` in
+  /// `extra_matches` (indices into `endpoints()`) gives the local reader of
+  /// endpoint `d` one more matched writer, namely a writer of a SECOND remote
+  /// participant (`PEER2_PREFIX`) that carries the same EntityId as the peer's
+  /// writer of endpoint `w` (EntityIds are unique per participant only, so
+  /// writers of different participants -- on different topics -- routinely
+  /// share one). The proxy is added the way discovery adds it
+  /// (`Reader::update_writer_proxy`); the second participant has no key
+  /// material registered with the plugins.
+  pub fn new_with_matches(
+    dir: &str,
+    governance: &str,
+    extra_matches: &[(usize, usize)],
+  ) -> Result<Self, String> {
     net::capture_begin();
     let d = PathBuf::from(dir);
     let f = |n: &str| {
@@ -375,6 +396,19 @@ impl GateRig {
           EntityId::UNKNOWN,
         );
         reader.update_writer_proxy(proxy, &qos);
+        // writers of the second remote participant matched to this reader
+        for (d, w) in extra_matches {
+          if eps[*d].name == ep.name && *w < eps.len() {
+            let loc = Locator::from(std::net::SocketAddr::from(([127, 0, 0, 1], 7778)));
+            let proxy = RtpsWriterProxy::new(
+              GUID::new(GuidPrefix::new(&PEER2_PREFIX), eid(eps[*w].writer)),
+              vec![loc],
+              vec![],
+              EntityId::UNKNOWN,
+            );
+            reader.update_writer_proxy(proxy, &qos);
+          }
+        }
       }
       mr.add_reader(reader);
       caches.push(topic_cache);
